@@ -327,7 +327,7 @@ func init() {
 	fw.Register(&fw.Property{
 		ID:          "C10",
 		Level:       "exploration",
-		Rule:        "the C09 scenario generator biased to the relations (equal, sender ahead, sender behind, diverged, unrelated, new, tag clobber) x ref kinds (head, remote-tracking, tag) x force {none, '+' refspec, --force} x merge mode {ff, --no-ff, --ff-only}, several refs per command so that rejections and successes mix; fetch also as --all with the refspecs in the remote's configuration; a pushed tag spelled refs/tags/x, x:refs/tags/x, x or refs/heads/b:refs/tags/x, with the receiver's tag on an ancestor, and a second tag sorting after it; merges and pulls with a second branch whose name merely ends with the merged branch's name, with the target spelled below the branch (b0^), with a merged commit that lacks its table; tags with a slash in their name; the real `wrgl fetch` / `push` / `pull` in-process against the reference server; ref values and full reflogs are snapshotted before and after: every ref that changed without force must descend from its old value (harness graph model), an existing tag never changes without force, refused updates keep the old value and are named in the output while legitimate updates of the same command still happen, a fast-forward merge lands exactly on the other commit, --no-ff creates a descendant of both, --ff-only refuses a true merge, and each change adds exactly one reflog entry with the true old and new values; distinct_nontrivial = distinct (operation, force, relations, seed)",
+		Rule:        "the C09 scenario generator biased to the relations (equal, sender ahead, sender behind, diverged, unrelated, new, tag clobber) x ref kinds (head, remote-tracking, tag) x force {none, '+' refspec, --force} x merge mode {ff, --no-ff, --ff-only}, several refs per command so that rejections and successes mix; fetch also as --all with the refspecs in the remote's configuration; a pushed tag spelled refs/tags/x, x:refs/tags/x, x or refs/heads/b:refs/tags/x, with the receiver's tag on an ancestor, and a second tag sorting after it; merges and pulls with a second branch whose name merely ends with the merged branch's name, with the target spelled below the branch (b0^), with a merged commit that lacks its table; merge.fastForward set in the configuration (never, only) alone and overridden by a flag; pull with a '+' refspec (which concerns the tracking ref only: the local branch may never move backwards) and a branch called v1.0; tags with a slash in their name; the real `wrgl fetch` / `push` / `pull` in-process against the reference server; ref values and full reflogs are snapshotted before and after: every ref that changed without force must descend from its old value (harness graph model), an existing tag never changes without force, refused updates keep the old value and are named in the output while legitimate updates of the same command still happen, a fast-forward merge lands exactly on the other commit, --no-ff creates a descendant of both, --ff-only refuses a true merge, and each change adds exactly one reflog entry with the true old and new values; distinct_nontrivial = distinct (operation, force, relations, seed)",
 		Assumptions: []string{"pushes are gated on the client in wrgl; the reference server applies whatever it is sent"},
 		Workers:     8,
 		Gen: func(tier string, seed int64) []fw.Case {
